@@ -1,11 +1,13 @@
 #!/usr/bin/env python3
-"""tools/design_tables.py : rewrite in place the generated table of DESIGN.md 0.5 (seeded changes) from seeded/*/meta.json."""
+"""tools/design_tables.py : rewrite in place the generated tables of DESIGN.md: 0.3 (findings, from known_findings.txt)
+and 0.5 (seeded changes, from seeded/*/meta.json)."""
 import os, re, subprocess
 V = os.path.normpath(os.path.join(os.path.dirname(os.path.abspath(__file__)), ".."))
 d = open(V + "/DESIGN.md").read()
-tbl = subprocess.run(["python3", V + "/tools/seedtable.py"], stdout=subprocess.PIPE, check=True).stdout.decode()
-m = re.search(r"^\| seeded change \|.*?(?=^\n)", d, re.M | re.S)
-assert m, "table not found"
-d = d[:m.start()] + tbl + d[m.end():]
+for tool, head in (("seedtable.py", r"^\| seeded change \|"), ("findings_table.py", r"^\| disposition \|")):
+    tbl = subprocess.run(["python3", V + "/tools/" + tool], stdout=subprocess.PIPE, check=True).stdout.decode()
+    m = re.search(head + r".*?(?=^\n)", d, re.M | re.S)
+    assert m, "table not found: " + tool
+    d = d[:m.start()] + tbl + d[m.end():]
+    print("%s: %d rows" % (tool, tbl.count("\n") - 2))
 open(V + "/DESIGN.md", "w").write(d)
-print("rewrote seeded table: %d rows" % (tbl.count("\n") - 2))
